@@ -131,6 +131,7 @@ PROPS["C03"] = dict(
     assumptions=["the adversary cannot forge signatures or break the Noise key exchange", "a lifted signature whose signed data differs from the transcript cannot verify (collision resistance)"],
     subs=[
         R("C03.forgery", "ke", "TestC03Forgery", 10000, 960000, steps=30),
+        P("C03.forgery_exhaustive", "ke", "TestC03Exhaustive", qto=600, tto=3000),
     ],
 )
 
